@@ -131,9 +131,19 @@ def make_rules(case):
         k = calls.get(u, 0); calls[u] = k + 1; cur[u] = k
         d = durs[u]
         return float(d[k % len(d)])
+    # two cases in three hand back the SAME stored list object whenever the same table row is consulted again (the ordinary way
+    # to write a table-driven rule): an implementation that consumes the user's lists in place then sees a shortened row at the
+    # node's next infection with that ordinal and leaves the reference semantics (seeded change C13j)
+    import zlib
+    shared = zlib.crc32(repr(sorted(dels.items(), key=repr)).encode()) % 3 != 0
+    store = {}
     def trans_fn(u, v, rec_delay):
         ls = dels[(u, v)]
-        return [float(x) for x in ls[cur[u] % len(ls)]] if ls else []
+        if not ls: return []
+        k = cur[u] % len(ls)
+        if not shared: return [float(x) for x in ls[k]]
+        if (u, v, k) not in store: store[(u, v, k)] = [float(x) for x in ls[k]]
+        return store[(u, v, k)]
     def joint(u, nbrs):
         rd = rec_fn(u)
         return {v: trans_fn(u, v, rd) for v in nbrs}, rd
